@@ -339,6 +339,26 @@ def check(model, rep):
            qualname='SP', line=0)
     rep.floor('R10.5', 'methods on a syntactic call cycle', len(cyclic), 5)
 
+    # ---------------------------------------------------------------- R10.8
+    # every method that changes plate poses or plate-fixed joints relies on _IKHelper to re-derive joints and leg lengths; it must do so on
+    # every call - a remembered solve keyed on the plate poses alone goes stale when the plate-fixed joints are replaced (re-spin)
+    from ..engine.paths import paths_of
+    from .common_ops import flat_method
+    rep.rule('R10.8', '_IKHelper re-derives the joint positions and leg lengths on every call: every returning path runs the IK kernel (no result '
+                      'remembered across calls)')
+    ih = flat_method(sp, '_IKHelper')
+    n_ih = 0
+    for pth in paths_of(ih.node, ih.params):
+        if pth.kind not in ('return', 'fall'):
+            continue
+        n_ih += 1
+        solved = any(e[0] == 'call' and e[1].split('.')[-1] == 'SPIKinSpace' for e in pth.events)
+        rep.ob('R10.8', ih, '_IKHelper path ending at line %s runs SPIKinSpace' % (pth.ret_line or 'end'), solved,
+               'a path through _IKHelper (conditions: %s) hands back leg lengths without running the IK kernel: joints and lengths remembered from an '
+               'earlier call are republished although the plate-fixed joints may have been replaced since (spinCustom relies on its final move to '
+               'rebuild them)' % ('; '.join('%s is %s' % (k_[:60], v_) for k_, v_ in sorted(pth.facts.items()))[:220] or 'none'), line=pth.ret_line)
+    rep.floor('R10.8', 'returning paths of _IKHelper', n_ih, 1)
+
 
 def constraint_definitions(model, rep, rule, only=None):
     """Each constraint predicate of SP tests the documented quantity of the CURRENT state (structural; the comparison may be
